@@ -22,7 +22,7 @@ def regen(ctx):
 
 
 # ------------------------------------------------------------------------------------------
-def gen_single_excitation(rng, kind, cls, axi):
+def gen_single_excitation(rng, kind, cls, axi, nonlinear=False):
     B = Builder(kind)
     p = B.p
     p["problemtype"] = "axisymmetric" if axi else "planar"
@@ -45,6 +45,9 @@ def gen_single_excitation(rng, kind, cls, axi):
         cond = B.prop("circuits", name="cond", type=1, V=(rng.choice([2.0, 8.0]) if cls == "dirichlet" else 0.0))
     elif kind == "feh":
         m1 = B.prop("blockprops", name="m1", kx=rng.choice([1.0, 2.0]), ky=rng.choice([1.0, 3.0]), kt=0.0, qv=(rng.choice([1e3, -2e3]) if cls == "volume" else 0.0))
+        if nonlinear:
+            # temperature-dependent conductivity: several passes of the solver's outer loop; the table does not involve lengths
+            p["blockprops"][-1]["tk"] = [(250.0, 1.0), (320.0, 2.0), (420.0, 5.0)]
         m2 = B.prop("blockprops", name="m2", kx=20.0, ky=20.0, kt=0.0, qv=0.0)
         fixA = B.prop("bdryprops", name="fixA", type=0, Tset=(rng.choice([300.0, 350.0]) if cls == "dirichlet" else 0.0))
         fixB = B.prop("bdryprops", name="fixB", type=0, Tset=(rng.choice([280.0, 400.0]) if cls == "dirichlet" else 0.0))
@@ -78,7 +81,7 @@ def gen_single_excitation(rng, kind, cls, axi):
             q["cond"] = cond
         p["holes"].append(dict(x=(bx0 + bx1) / 2, y=(by0 + by1) / 2))
     B.label(x0 + W * 0.125, y0 + H * 0.125, m1, maxarea=d)
-    p["features"] = [kind, cls, "axi" if axi else "planar"]
+    p["features"] = [kind, cls, "axi" if axi else "planar"] + (["nonlinear"] if nonlinear else [])
     p["probe"] = [(x0 + W * 0.2, y0 + H * 0.3), (x0 + W * 0.8, y0 + H * 0.7), (x0 + W * 0.5, y0 + H * 0.15)]
     p["lab"] = (x0 + W * 0.125, y0 + H * 0.125)
     p["inner"] = ((bx0 + bx1) / 2, (by0 + by1) / 2)
@@ -185,12 +188,14 @@ def correspond(ctx):
     plan = [("fee", "dirichlet", False), ("fee", "volume", False), ("fee", "surface", True), ("feh", "dirichlet", True),
             ("feh", "volume", False), ("fem", "dirichlet", False), ("fem", "volume", False), ("fem", "circuit", False),
             ("feh", "surface", False), ("fee", "dirichlet", True), ("fee", "volume", True),
-            ("fem", "circuit", True), ("fem", "volume", True)]
+            ("fem", "circuit", True), ("fem", "volume", True), ("feh", "dirichlet-nl", False), ("feh", "dirichlet-nl", True)]
     if not ctx.quick():
         plan = plan * 5
     feats, samples, n = {}, [], 0
     for k, (kind, cls, axi) in enumerate(plan):
-        p = gen_single_excitation(rng, kind, cls, axi)
+        nl = cls.endswith("-nl")
+        cls = cls[:-3] if nl else cls
+        p = gen_single_excitation(rng, kind, cls, axi, nonlinear=nl)
         u1, u2 = rng.sample(femgen.UNITS, 2)
         if kind == "fem" and axi:
             # the post-processor's "node on the axis" tests are made in drawing units: pair a coarse unit with a fine one
